@@ -54,6 +54,10 @@ SHARED = [
     '.equ a = a + 1\n ldi r16, a', '.equ x = y * 2\n.equ y = x + 1\n .dw x', '.equ b = 2 * 8\n.equ c = b + 1\n ldi r16, c', '.equ a = 3 * 3\n ldi r16, a',
     # rarely used directives: whatever they report, they report it in every build
     '.csegsize 11\n nop', '.csegsize 12\n ret\n.message "after"', '.dseg\n.byte 2\n.cseg\n#pragma AVRPART CORE CORE_VERSION V2\n nop', '.listmac\n.list\n.nolist\n nop',
+    # a macro with more than ten parameters: `@1` is a prefix of `@10`, so the ORDER in which the parameters are substituted
+    # decides the text; it must be the same order in every build
+    '.macro wide\n .db @0, @1, @2, @3, @4, @5, @6, @7, @8, @9, @10, @11\n.endm\n wide 1, 2, 3, 4, 5, 6, 7, 8, 9, 10, 11, 12',
+    '.macro wide\n ldi r16, @12\n ldi r17, @1\n ldi r18, @10 + @2\n.endm\n wide 1, 2, 3, 4, 5, 6, 7, 8, 9, 10, 11, 12, 13\n wide 9, 8, 7, 6, 5, 4, 3, 2, 1, 0, 1, 2, 3',
     # data, eeprom, messages
     '.eseg\n.db 1, 2, 3\n.cseg\n nop\n.message "a"\n.message "b"',
     '.eseg\n.db 9\n.cseg\n ret\n.message "b"\n.message "a"',
